@@ -820,6 +820,30 @@ Proof.
   apply List.filter_In in Hin. destruct Hin as [_ E]. cbn [fst] in E. rewrite String.eqb_refl in E. discriminate.
 Qed.
 
+(* drop_origin touches only the origin table, which afterwards has no entry for the pair *)
+Lemma drop_origin_none n hbh e2e h e x :
+  List.In (h, e, x) (n_origin_waiting (drop_origin n hbh e2e)) -> ~ (h = hbh /\ e = e2e).
+Proof.
+  unfold drop_origin. cbn [n_origin_waiting set_waiting]. intros Hin [-> ->].
+  apply List.filter_In in Hin. destruct Hin as [_ E]. rewrite !Z.eqb_refl in E. discriminate.
+Qed.
+
+(* C09: an answer that cannot be routed although some host was waiting for its pair (no connection
+   of that host, or the connection is not ready) releases the pair's entry of the origin table *)
+Theorem C09_unroutable_releases_origin n m :
+  fst (route_answer n m) = None ->
+  List.find (fun e => mem_zz (o_hbh m, o_e2e m) (snd e)) (n_peer_waiting n) <> None ->
+  forall h e x, List.In (h, e, x) (n_origin_waiting (snd (route_answer n m))) ->
+                ~ (h = o_hbh m /\ e = o_e2e m).
+Proof.
+  unfold route_answer.
+  destruct (List.find _ (n_peer_waiting n)) as [[host l]|]; [|intros _ H; contradiction].
+  match goal with |- context [List.find ?f (n_conns ?x)] => destruct (List.find f (n_conns x)) as [c|] end.
+  - destruct (is_ready_state (c_state c)); [discriminate|].
+    intros _ _ h e x. cbn [snd]. apply drop_origin_none.
+  - intros _ _ h e x. cbn [snd]. apply drop_origin_none.
+Qed.
+
 (* ================================================================================== *)
 (* 6. C10: routing of application requests                                            *)
 (* ================================================================================== *)
@@ -1474,7 +1498,7 @@ Qed.
 Lemma recv_cer_g n cid m : gres nodial n (recv_cer n cid m).
 Proof.
   unfold recv_cer. destruct (get_conn n cid) as [c0|]; [|apply gres_refl].
-  destruct (negb (cstate_eqb (c_state c0) SConnected)); [apply gres_refl|].
+  destruct (negb (cstate_eqb (c_state c0) SConnected)); [apply gres_nil, frame_same; reflexivity|].
   destruct (pres_get (m_origin m)) as [host|]; [|apply gres_refl].
   destruct (get_peer n host) as [p|].
   - cbv zeta.
@@ -2479,6 +2503,7 @@ Print Assumptions C09_gone_is_error.
 Print Assumptions C09_second_fails.
 Print Assumptions C09_second_is_error.
 Print Assumptions C09_removed_on_close.
+Print Assumptions C09_unroutable_releases_origin.
 Print Assumptions pw_add_nodup.
 Print Assumptions pw_remove_nodup.
 Print Assumptions route_request_spec.
